@@ -140,7 +140,7 @@ func init() {
 		Level: "fault_enumeration",
 		Rule:  "all sequences over {disconnect, reconnect, closed} of length <= L delivered serially (as nats.go's dispatcher does) through the handlers the monitor registers on an unconnected nats.Conn, x grace in {2H, 3H+1ms} (and the 5s default on short sequences) x ownership change during the outage {none, usurper record, expiry} x (short sequences) partition of the store and Stop/StopWithContext; each notification and the change moved to every choice point (<= D deviations, incl. inside the 100ms settle sleep and the verification reads); non-trivial = a notification reached a leading instance",
 		Assume: []string{"connection callbacks never overlap (nats.go dispatches them from one goroutine, in order); the harness reproduces that", "single monitored instance; the usurper is an outside writer"},
-		Plan:   c11Plan,
+		Plan:   func(t string) []PlanItem { return append(c11Plan(t), finePlan("C11", t)...) },
 	}
 }
 
@@ -158,7 +158,9 @@ func oracleC11(r *Result) ([]Violation, bool) {
 		if e.K == "q" {
 			for _, sn := range e.Snap {
 				if sn.Blocked {
-					s.add(e.T, "status-blocked", "%s: Status() never returns at %v: the election mutex is held for ever", sn.I, e.T)
+					if !sn.Fine {
+						s.add(e.T, "status-blocked", "%s: Status() never returns at %v: the election mutex is held for ever", sn.I, e.T)
+					}
 				}
 			}
 		}
